@@ -274,9 +274,11 @@ request used it) reproduces the request path" -/
 def RegexFree {E : Engine} {hok : Nat → Bool} {subs leaves s rest}
     (w : Walk E hok subs leaves s rest) : Prop := ∀ st ∈ w.steps, ∀ pt bs, st.pat ≠ .regex pt bs
 
-/-- the one exception to the round trip: the short form of a route whose ONLY segment is optional
-    (`/?name` requested as `/`).  `URLPath` stops before the optional segment and, nothing
-    being in front of it, returns the EMPTY string, not `/`. -/
+/-- the root path: the short form of a route whose ONLY segment is optional (`/?name` requested as
+    `/`).  `URLPath` stops before the optional segment and, nothing being in front of it, the
+    buffer is empty — it then returns `/` (`root_short_url_root`), so the round trip holds here
+    too (`walk_roundtrip_rootShort`); the walk's steps do not classify segments of the route in
+    this case, which is why the theorems about steps (`regex_values_match`) set it aside. -/
 def RootShort (l : Leaf) : Prop := l.long = false ∧ l.route.segs.length < 2
 
 /-- **`roundtrip_partial`** — for the trees of every history of parsed routes and EVERY accepting
@@ -284,13 +286,15 @@ def RootShort (l : Leaf) : Prop := l.long = false ∧ l.route.segs.length < 2
     with the RAW captures of the walk, the optional segment included iff the leaf is the long form,
     is `/` followed by the request's segments joined by `/` — the request path with its leading
     slashes reduced to one.  Covers static, placeholder and match-all segments (a match-all in
-    the middle or at the end, any capture limit), long and short form. -/
+    the middle or at the end, any capture limit), long and short form, the root path included. -/
 theorem roundtrip_partial (E : Engine) (hok : Nat → Bool) (h : List (Route × Nat))
     (hP : ∀ rh ∈ h, ∀ s ∈ rh.1.segs, ParsedSeg s = true) {s : Seg} {rest : List Seg}
     (w : Walk E hok (build E h).subs (build E h).leaves s rest)
-    (hnr : RegexFree w) (hns : ¬ RootShort w.endLeaf) :
+    (hnr : RegexFree w) :
     urlPath w.endLeaf.route w.binds w.endLeaf.long = slash :: joinSlash (s :: rest) := by
   have hb := build_bindsDistinct E h
+  by_cases hns : RootShort w.endLeaf
+  · exact walk_roundtrip_rootShort w (build_routeInv E _ h hP) (build_keyInv E _ h hP) hns.1 hns.2
   refine walk_roundtrip_of w (build_routeInv E _ h hP) (build_keyInv E _ h hP) ?_ ?_
   · intro hl
     apply Classical.byContradiction
@@ -302,20 +306,27 @@ theorem roundtrip_partial (E : Engine) (hok : Nat → Bool) (h : List (Route × 
     exact lookup_of_mem_nodup w.binds (w.binds_keys [] hb).1 bv.1 bv.2
       (List.mem_flatMap.mpr ⟨st, hst, hbv⟩)
 
-/-- the full statement: the same without `RegexFree`.  It is FALSE as it stands — see
-    `roundtrip_regex_multi_counterexample` in §9: `URLPath` writes only the FIRST parameter of an
-    element `{a: /…/, b: /…/}`, so the value of `b` is lost — and is proved in §7
-    (`roundtrip_regex`) under `EngineLaws` for routes whose parameter lists have one entry. -/
+/-- the full statement: the same without `RegexFree`, for every engine that satisfies `EngineLaws`
+    (§6).  It is proved in §7 (`roundtrip_regex`, `roundtrip_full_holds`).  Without `EngineLaws`
+    it is false — an engine may report submatches that are no parts of the text, see
+    `roundtrip_needs_engineLaws` in §9. -/
 def roundtrip_full : Prop :=
-  ∀ (E : Engine) (hok : Nat → Bool) (h : List (Route × Nat)),
+  ∀ (E : Engine), EngineLaws E → ∀ (hok : Nat → Bool) (h : List (Route × Nat)),
     (∀ rh ∈ h, ∀ s ∈ rh.1.segs, ParsedSeg s = true) → ∀ (s : Seg) (rest : List Seg)
-    (w : Walk E hok (build E h).subs (build E h).leaves s rest), ¬ RootShort w.endLeaf →
+    (w : Walk E hok (build E h).subs (build E h).leaves s rest),
     urlPath w.endLeaf.route w.binds w.endLeaf.long = slash :: joinSlash (s :: rest)
 
-/-- the exception is real: for the short form of `/?{x}` the URL is empty -/
-theorem root_short_url_empty (opt : Segment) (hopt : opt.optional = true) (vals : List (Bytes × Bytes)) :
-    urlPath ⟨[opt]⟩ vals false = [] := by
-  simp [urlPath, skeleton, skeleton.go, hopt, replaceAll, replaceAll.go]
+/-- the same for arbitrary engines (no `EngineLaws`): refuted in §9 -/
+def roundtrip_any_engine : Prop :=
+  ∀ (E : Engine) (hok : Nat → Bool) (h : List (Route × Nat)),
+    (∀ rh ∈ h, ∀ s ∈ rh.1.segs, ParsedSeg s = true) → ∀ (s : Seg) (rest : List Seg)
+    (w : Walk E hok (build E h).subs (build E h).leaves s rest),
+    urlPath w.endLeaf.route w.binds w.endLeaf.long = slash :: joinSlash (s :: rest)
+
+/-- the root path: for the short form of `/?{x}` the URL is `/`, whatever the values -/
+theorem root_short_url_root (opt : Segment) (hopt : opt.optional = true) (vals : List (Bytes × Bytes)) :
+    urlPath ⟨[opt]⟩ vals false = B "/" :=
+  C12.urlPath_fallback_root ⟨[opt]⟩ opt [] rfl hopt vals
 
 /-- **dispatch + round trip**: what `Tree.Match` returns, in one statement — the winning walk,
     the decoded values delivered for its binds, and the URL rebuilt from the raw captures -/
@@ -325,13 +336,13 @@ theorem dispatch_roundtrip (E : Engine) (hok : Nat → Bool) (h : List (Route ×
     ∃ s rest, segsOf path = s :: rest ∧
       ∃ w : Walk E hok (build E h).subs (build E h).leaves s rest, w.endLeaf = l ∧
       (∀ b v, (b, v) ∈ w.binds → ps.get? b = some (pathUnescapeOrRaw v)) ∧
-      (RegexFree w → ¬ RootShort l →
+      (RegexFree w →
         urlPath l.route w.binds l.long = slash :: joinSlash (segsOf path)) := by
   obtain ⟨s, rest, hs, w, hw, _, hval⟩ := decoded_once_build E hok h path l ps hm
-  refine ⟨s, rest, hs, w, hw, hval, fun hnr hns => ?_⟩
+  refine ⟨s, rest, hs, w, hw, hval, fun hnr => ?_⟩
   subst hw
   rw [hs]
-  exact roundtrip_partial E hok h hP w hnr hns
+  exact roundtrip_partial E hok h hP w hnr
 
 /-! ### 6. regex segments, under `EngineLaws`
 
@@ -387,14 +398,16 @@ theorem regex_values_match (E : Engine) (hE : EngineLaws E) (hok : Nat → Bool)
 /-! ### 7. the round trip with regex segments -/
 
 /-- **`roundtrip_regex`** — under `EngineLaws`: the round trip of §5 for walks through ANY kind of
-    segment (static, placeholder, match-all, regex with literal text around the binds), provided
-    every parameter list of the route has one entry (`{name: /expr/}`, not `{a: /…/, b: /…/}`) -/
+    segment (static, placeholder, match-all, regex with literal text around the binds and
+    parameter lists of any length: `{a: /…/, b: /…/}` writes a hole per parameter), long and
+    short form, the root path included -/
 theorem roundtrip_regex (E : Engine) (hE : EngineLaws E) (hok : Nat → Bool) (h : List (Route × Nat))
     (hP : ∀ rh ∈ h, ∀ s ∈ rh.1.segs, ParsedSeg s = true) {s : Seg} {rest : List Seg}
-    (w : Walk E hok (build E h).subs (build E h).leaves s rest)
-    (hsp : ∀ seg ∈ w.endLeaf.route.segs, SingleParams seg.elems) (hns : ¬ RootShort w.endLeaf) :
+    (w : Walk E hok (build E h).subs (build E h).leaves s rest) :
     urlPath w.endLeaf.route w.binds w.endLeaf.long = slash :: joinSlash (s :: rest) := by
   have hb := build_bindsDistinct E h
+  by_cases hns : RootShort w.endLeaf
+  · exact walk_roundtrip_rootShort w (build_routeInv E _ h hP) (build_keyInv E _ h hP) hns.1 hns.2
   have hshort : w.endLeaf.long = false → 2 ≤ w.endLeaf.route.segs.length := by
     intro hl
     apply Classical.byContradiction
@@ -410,10 +423,15 @@ theorem roundtrip_regex (E : Engine) (hE : EngineLaws E) (hok : Nat → Bool) (h
     split at hseg
     · exact hseg
     · exact List.dropLast_subset _ hseg
-  refine instSeg_step_regex hE (hS seg hsegr) hcl (w.steps_ok st hst) (hsp seg hsegr) ?_
+  refine instSeg_step_regex hE (hS seg hsegr) hcl (w.steps_ok st hst) ?_
   intro bv hbv
   exact lookup_of_mem_nodup w.binds (w.binds_keys [] hb).1 bv.1 bv.2
     (List.mem_flatMap.mpr ⟨st, hst, hbv⟩)
+
+/-- **`roundtrip_full` holds**: the round trip for every engine satisfying `EngineLaws`, every
+    history of parsed routes and every accepting walk -/
+theorem roundtrip_full_holds : roundtrip_full :=
+  fun E hE hok h hP _ _ w => roundtrip_regex E hE hok h hP w
 
 /-! ### 8. router level
 
@@ -571,7 +589,7 @@ example : ∃ s rest, segsOf (B "/%31/b") = s :: rest ∧
       Params.get? [([120], [49]), ([121], [49])] b = some (pathUnescapeOrRaw v)) ∧
     urlPath leafB.route w.binds leafB.long = slash :: joinSlash (segsOf (B "/%31/b")) := by
   obtain ⟨s, rest, hs, w, hw, hv, hrt⟩ := dispatch_roundtrip E₀ ok h₁ (by decide) _ _ _ stale_extra_key
-  refine ⟨s, rest, hs, w, hw, hv, hrt ?_ (by simp [RootShort, leafB])⟩
+  refine ⟨s, rest, hs, w, hw, hv, hrt ?_⟩
   exact regexFree_of_no_compile E₀ (fun _ => rfl) ok h₁ (by decide) w
     (by rw [hw]; simp [RootShort, leafB])
 
@@ -614,19 +632,41 @@ def leafMulti : Leaf :=
 
 theorem build_multi : build E₁ hMulti = .mk [] (.static []) [] [leafMulti] := rfl
 
-/-- **`roundtrip_full` is false**: `/xxyy` is served by `/{a: /x+/, b: /y+/}` with `a = "xx"`,
-    `b = "yy"`, but `URLPath` writes `{a}` only (the first parameter of the element), so the URL
-    rebuilt from the captures is `/xx`.  (`roundtrip_regex` excludes such parameter lists.) -/
-theorem roundtrip_regex_multi_counterexample : ¬ roundtrip_full := by
-  intro H
+/-- a parameter list with two entries: `/xxyy` is served by `/{a: /x+/, b: /y+/}` with `a = "xx"`,
+    `b = "yy"`; `URLPath` writes `{a}{b}` (a hole per bind parameter), so the URL rebuilt from the
+    captures is `/xxyy` again -/
+example : ∃ w : Walk E₁ ok (build E₁ hMulti).subs (build E₁ hMulti).leaves (B "xxyy") [],
+    w.endLeaf = leafMulti ∧ w.binds = [([97], B "xx"), ([98], B "yy")] ∧
+    urlPath w.endLeaf.route w.binds w.endLeaf.long = slash :: joinSlash [B "xxyy"] := by
   have hl : leafMulti ∈ (build E₁ hMulti).leaves := by rw [build_multi]; simp [Node.leaves]
   have ha : leafMulti.pat.acceptsLeaf E₁ (B "xxyy") = true := by decide
   have hh : ok leafMulti.hid = true := by simp [ok]
-  have := H E₁ ok hMulti (by decide) (B "xxyy") [] (.leaf _ _ _ leafMulti hl ha hh)
-    (by simp [RootShort, Walk.endLeaf, leafMulti])
+  have hcaps : leafMulti.pat.caps E₁ (B "xxyy") = [([97], B "xx"), ([98], B "yy")] := by decide
+  refine ⟨.leaf _ _ _ leafMulti hl ha hh, rfl, by rw [Walk.binds_leaf, hcaps], ?_⟩
+  rw [Walk.binds_leaf, hcaps]
+  simp only [Walk.endLeaf]
+  decide
+
+/-- an engine that LIES: on `xxyy` it reports the submatches `xx` and `y` for `^(x+)(y+)$` — the
+    parts do not make up the text, so it does not satisfy `EngineLaws` -/
+def E₁bad : Engine :=
+  ⟨fun _ => some 0,
+   fun p s => if p = B "^(x+)(y+)$" ∧ s = B "xxyy" then some [B "xxyy", B "xx", B "y"] else none,
+   fun _ _ => false⟩
+
+theorem build_multi_bad : build E₁bad hMulti = .mk [] (.static []) [] [leafMulti] := rfl
+
+/-- **`EngineLaws` is needed**: with the lying engine `/xxyy` is served by `/{a: /x+/, b: /y+/}`
+    with `a = "xx"`, `b = "y"`, and the URL rebuilt from the captures is `/xxy` -/
+theorem roundtrip_needs_engineLaws : ¬ roundtrip_any_engine := by
+  intro H
+  have hl : leafMulti ∈ (build E₁bad hMulti).leaves := by rw [build_multi_bad]; simp [Node.leaves]
+  have ha : leafMulti.pat.acceptsLeaf E₁bad (B "xxyy") = true := by decide
+  have hh : ok leafMulti.hid = true := by simp [ok]
+  have := H E₁bad ok hMulti (by decide) (B "xxyy") [] (.leaf _ _ _ leafMulti hl ha hh)
   rw [Walk.binds_leaf] at this
   simp only [Walk.endLeaf] at this
-  have hcaps : leafMulti.pat.caps E₁ (B "xxyy") = [([97], B "xx"), ([98], B "yy")] := by decide
+  have hcaps : leafMulti.pat.caps E₁bad (B "xxyy") = [([97], B "xx"), ([98], B "y")] := by decide
   rw [hcaps] at this
   revert this
   decide
@@ -656,15 +696,6 @@ example : ∃ w : Walk RegexExample.E₂ ok (build RegexExample.E₂ hRe).subs (
   · rw [Walk.binds_leaf]; decide
   · have := roundtrip_regex RegexExample.E₂ RegexExample.engineLaws_E₂ ok hRe hP
       (.leaf _ _ _ leafRe hl ha hh)
-      (by
-        intro seg hseg e he ps hps
-        simp only [Walk.endLeaf, leafRe, rRe, List.mem_singleton] at hseg
-        subst hseg
-        simp only [List.mem_cons, List.not_mem_nil, or_false] at he
-        rcases he with rfl | rfl
-        · cases hps
-        · injection hps with hps; subst hps; rfl)
-      (by simp [RootShort, Walk.endLeaf, leafRe])
     simp only [Walk.endLeaf] at this
     show urlPath leafRe.route _ leafRe.long = _
     rw [this]
